@@ -26,7 +26,7 @@ var EOFMarker = []byte{0x1f, 0x8b, 0x08, 0x04, 0, 0, 0, 0, 0, 0xff, 0x06, 0, 0x4
 
 // Pay describes a payload compactly; Bytes derives the content.
 type Pay struct {
-	Kind int // 0 zeros, 1 small-alphabet text, 2 pseudo-random (incompressible), 3 mixture
+	Kind int // 0 zeros with markers, 1 small-alphabet text, 2 pseudo-random (incompressible), 3 mixture, 4 all zeros
 	Seed uint64
 	Len  int
 }
@@ -60,6 +60,8 @@ func (p Pay) Bytes() []byte {
 				i++
 			}
 		}
+	case 4:
+		// all zeros: a full block that compresses to a member of about a hundred bytes
 	case 2:
 		for i := 0; i < len(b); {
 			r := splitmix(&x)
